@@ -14,17 +14,18 @@ theorem W_one : IAm.W 1 = 1 := by decide
 
 /-- Condition code followed by `BRZ L`: control is at `L` if the value is zero, behind the branch
     otherwise. -/
-theorem exec_cond_brz (K : PCtx) (wf : K.WF) (C : AExpr) (w : Word) (σ : X.St) (hC : ExecA K C w σ)
-    (gs : GS) (cc : Code) (gs1 : GS) (i : Nat) (a b : Word) (mem : Mem) (io : Isa.IOSt) (L : String) (jL : Nat) (kL : LabelKind)
+theorem exec_cond_brz {t : Bool} (K : PCtx) (wf : K.WF) (C : AExpr) (w : Word) (σ : X.St) (hC : ExecAt t K C w σ)
+    (gs : GS) (cc : Code) (gs1 : GS) (i : Nat) (a b : Word) (mem : Mem) (io : Isa.IOSt) (hio : σ.io = io) (L : String) (jL : Nat) (kL : LabelKind)
     (hg : genExpr K.ctx C .A gs = .ok (cc, gs1)) (hat : At K.env.ds i (K.low cc))
     (hbr : K.env.ds[i + (K.low cc).length]? = some (.ref 0xA L true))
     (hlbl : K.env.ds[jL]? = some (.label kL L)) (hr : Rep K σ mem)
     (hsz : gs1.size ≤ K.S) (hnl : K.nlocals ≤ gs.offset) (hci : ConstsIn K gs1) :
     ∃ b1 mem1, Steps K.env (cfg i a b mem) io (cfg (if w = 0 then jL else i + (K.low cc).length + 1) w b1 mem1) io ∧
       Rep K σ mem1 := by
-  obtain ⟨b1, mem1, st, rep, _⟩ := hC gs cc gs1 i a b mem io hg hat hr hsz hnl hci
+  subst hio
+  obtain ⟨b1, mem1, st, rep, _⟩ := hC gs cc gs1 i a b mem hg hat hr hsz hnl hci
   have lL := labelIdx_of_nodup _ _ _ _ wf.nodup hlbl
-  have s0 := Step.brz (env := K.env) (cfg (i + (K.low cc).length) w b1 mem1) io L jL hbr lL
+  have s0 := Step.brz (env := K.env) (cfg (i + (K.low cc).length) w b1 mem1) σ.io L jL hbr lL
   exact ⟨b1, mem1, st.trans (Steps.one s0), rep⟩
 
 theorem low_dirs (K : PCtx) : ∀ (ds : List Dir), K.low (ds.map IDir.dir) = ds := by
@@ -145,7 +146,8 @@ theorem execS_ret (fuel : Nat) (e : X.Expr) (σ : X.St) (hp : pureE e = true) :
         subst hcode
         simp only [low_append] at hat ⊢
         have hA := expr_pure_correct K wf.toWF f e st w s hp hev'
-        obtain ⟨b', mem', st1, rep, _⟩ := hA gs c gs' i a b mem σ.io h1 hat.left (hr.same hs) hsz hnl hci
+        obtain ⟨b', mem', st1, rep, _⟩ := hA gs c gs' i a b mem h1 hat.left (hr.same hs) hsz hnl hci
+        rw [hs.2.2.2.1] at st1
         obtain ⟨k, hk⟩ := wf.exit_lbl
         have hbr : K.low [lBR K.ctx.exitLabel] = [.ref 0x9 K.ctx.exitLabel true] := rfl
         rw [hbr] at hat
@@ -177,7 +179,8 @@ theorem execS_assign (fuel : Nat) (n : String) (e : X.Expr) (σ : X.St) (hp : pu
         subst hcode
         simp only [low_append] at hat ⊢
         have hA := expr_pure_correct K wf.toWF f e st w s hp hev
-        obtain ⟨b', mem', st1, rep, _⟩ := hA gs c gs' i a b mem σ.io h1 hat.left (hr.same hs) hsz hnl hci
+        obtain ⟨b', mem', st1, rep, _⟩ := hA gs c gs' i a b mem h1 hat.left (hr.same hs) hsz hnl hci
+        rw [hs.2.2.2.1] at st1
         have rep1 := rep.same hs2
         -- the location of the assigned variable
         have hρ : K.ρ n = none := by
@@ -219,12 +222,42 @@ theorem out_skip (fuel : Nat) (s : X.St) (j : Nat) (a b : Word) (mem : Mem) (hr 
       rw [hs.2.2.2.1]
       exact Steps.refl _ _
 
+/-- What the statement lemmas need of a condition: evaluating it does not stop the program,
+    changes nothing the representation looks at, and its code computes its value. -/
+structure CondOK (K : PCtx) (fuel : Nat) (c : X.Expr) : Prop where
+  noexit : ∀ st mem cd s, Rep K st mem → X.eval fuel K.xc c st ≠ .exit cd s
+  io : ∀ st mem v s, Rep K st mem → X.eval fuel K.xc c st = .ok v s → s.io = st.io
+  rep : ∀ st mem v s, Rep K st mem → X.eval fuel K.xc c st = .ok v s → ∀ m, Rep K st m → Rep K s m
+  exec : ∀ st mem w s, Rep K st mem → X.eval fuel K.xc c st = .ok (.int w) s →
+    ExecAt false K (optExpr (annotate K.ρ c)) w st
+
+omit wf in
+theorem condOK_pure (wf' : K.WF) (fuel : Nat) (c : X.Expr) (hp : pureE c = true) : CondOK K fuel c :=
+  ⟨fun st _ cd s _ => eval_pure_no_exit K.xc fuel c st cd s hp,
+   fun st _ v s _ h => (eval_pure K.xc fuel c st v s hp h).2.2.2.1,
+   fun st _ v s _ h m hm => hm.same (eval_pure K.xc fuel c st v s hp h),
+   fun st _ w s _ h => (expr_pure_correct K wf' fuel c st w s hp h).weaken⟩
+
+omit wf in
+theorem asBool_no_exit (what : String) (r : Res Val) (c : Word) (σ' : X.St) (h : ∀ cd s, r ≠ .exit cd s) :
+    asBool what r ≠ .exit c σ' := by
+  intro hh
+  unfold asBool asInt Res.bind at hh
+  cases hr : r with
+  | ok v s1 =>
+    rw [hr] at hh
+    cases v with
+    | int w => simp only at hh; split at hh <;> simp at hh
+    | arr _ => simp at hh
+  | exit c1 s1 => exact h c1 s1 hr
+  | undef w => rw [hr] at hh; simp at hh
+
 omit wf in
 theorem optStmt_ite (ρ : String → Option Word) (c : X.Expr) (t e : X.Stmt) :
     optStmt (annotS ρ (.ite c t e)) = .ite (optExpr (annotate ρ c)) (optStmt (annotS ρ t)) (optStmt (annotS ρ e)) := by
   simp [annotS, optStmt]
 
-theorem execS_ite (fuel : Nat) (c : X.Expr) (t e : X.Stmt) (σ : X.St) (hpc : pureE c = true)
+theorem execS_ite (fuel : Nat) (c : X.Expr) (t e : X.Stmt) (σ : X.St) (hCK : CondOK K fuel c)
     (iht : ∀ s, ExecS K exitJ (optStmt (annotS K.ρ t)) s (X.exec fuel K.xc t s))
     (ihe : ∀ s, ExecS K exitJ (optStmt (annotS K.ρ e)) s (X.exec fuel K.xc e s)) :
     ExecS K exitJ (optStmt (annotS K.ρ (.ite c t e))) σ (X.exec (fuel + 1) K.xc (.ite c t e) σ) := by
@@ -237,27 +270,33 @@ theorem execS_ite (fuel : Nat) (c : X.Expr) (t e : X.Stmt) (σ : X.St) (hpc : pu
     have hs := tick_same _ _ _ ht
     cases hev : asBool "condition of if" (X.eval fuel K.xc c st) with
     | undef w => simp only [Res.bind]; trivial
-    | exit cd s => exact absurd hev (asBool_pure_no_exit K.xc _ fuel c st cd s hpc)
+    | exit cd s => exact absurd hev (asBool_no_exit _ _ cd s (fun cd' s' => hCK.noexit st mem cd' s' (hr.same hs)))
     | ok w s =>
       simp only [Res.bind]
       obtain ⟨hev', hbw⟩ := asBool_ok _ _ _ _ hev
-      have hs2 := eval_pure K.xc _ _ _ _ _ hpc hev'
-      have hio : s.io = σ.io := by rw [hs2.2.2.2.1, hs.2.2.2.1]
-      have hC := expr_pure_correct K wf.toWF fuel c st w s hpc hev'
+      have hs2 := hCK.rep st mem _ s (hr.same hs) hev'
+      have hio : s.io = σ.io := by rw [hCK.io st mem _ s (hr.same hs) hev', hs.2.2.2.1]
+      have hC := hCK.exec st mem w s (hr.same hs) hev'
       have hrst := hr.same hs
       rcases genStmt_ite_inv _ _ _ _ _ _ _ hg with ⟨hts, hes, hcc⟩ | ⟨hts, hes, cc, gs1, ct, h1, h2, hcode⟩ |
           ⟨hts, hes, cc, gs1, ce, h1, h2, hcode⟩ | ⟨hts, hes, cc, gs1, ct, gs2, ce, h1, h2, h3, hcode⟩
       · -- both branches are skip: no code
         have htk := (isSkip_iff K.ρ t).mp hts
         have hek := (isSkip_iff K.ρ e).mp hes
-        rw [pure_noCall K.ρ c hpc] at hcc
-        rcases hcc with ⟨h0, _⟩ | ⟨_, hcode, _⟩
-        · simp at h0
+        rcases hcc with ⟨_, hgc⟩ | ⟨_, hcode, _⟩
+        · -- the condition is evaluated for its calls only
+          have hsk : (if (w == 1) = true then X.exec fuel K.xc t s else X.exec fuel K.xc e s) = X.exec fuel K.xc .skip s := by
+            rw [htk, hek]; split <;> rfl
+          obtain ⟨b1, mem1, st1, rep1, _⟩ := hC gs code gs' i a b mem hgc hat hrst hsz hnl hci
+          rw [hsk, ← hio]
+          refine (out_skip K exitJ wf fuel s _ w b1 mem1 (hs2 _ rep1)).pre ?_
+          rw [hio, ← hs.2.2.2.1]
+          exact st1
         · subst hcode
           have hsk : (if (w == 1) = true then X.exec fuel K.xc t s else X.exec fuel K.xc e s) = X.exec fuel K.xc .skip s := by
             rw [htk, hek]; split <;> rfl
           rw [hsk, ← hio]
-          exact out_skip K exitJ wf fuel s _ a b mem ((hr.same hs).same hs2)
+          exact out_skip K exitJ wf fuel s _ a b mem (hs2 _ (hr.same hs))
       · -- if c then T else skip
         have hek := (isSkip_iff K.ρ e).mp hes
         subst hcode
@@ -268,9 +307,9 @@ theorem execS_ite (fuel : Nat) (c : X.Expr) (t e : X.Stmt) (σ : X.St) (hpc : pu
         rw [hb, hl] at hat ⊢
         have hlab := hat.right.right.right.head
         simp only [List.length_cons, List.length_nil] at hlab
-        obtain ⟨b1, mem1, st1, rep1⟩ := exec_cond_brz K wf.toWF _ w st hC _ cc gs1 i a b mem σ.io _ _ _ h1
+        obtain ⟨b1, mem1, st1, rep1⟩ := exec_cond_brz K wf.toWF _ w st hC _ cc gs1 i a b mem σ.io hs.2.2.2.1 _ _ _ h1
           hat.left hat.right.head hlab hrst (by have := e2.2.1; omega) hnl (hci.of_eff e2)
-        have rep1s := rep1.same hs2
+        have rep1s := hs2 _ rep1
         simp only [List.length_append, List.length_cons, List.length_nil]
         by_cases hw1 : (w == 1) = true
         · have hw : w = 1 := by simpa using hw1
@@ -310,9 +349,9 @@ theorem execS_ite (fuel : Nat) (c : X.Expr) (t e : X.Stmt) (σ : X.St) (hpc : pu
         have helse := hat.right.left.get 2 _ rfl
         have hend := hat.right.right.right.head
         simp only [List.length_cons, List.length_nil, Nat.add_zero] at hbrz hbr helse hend
-        obtain ⟨b1, mem1, st1, rep1⟩ := exec_cond_brz K wf.toWF _ w st hC _ cc gs1 i a b mem σ.io _ _ _ h1
+        obtain ⟨b1, mem1, st1, rep1⟩ := exec_cond_brz K wf.toWF _ w st hC _ cc gs1 i a b mem σ.io hs.2.2.2.1 _ _ _ h1
           hat.left hbrz helse hrst (by have := e2.2.1; omega) hnl (hci.of_eff e2)
-        have rep1s := rep1.same hs2
+        have rep1s := hs2 _ rep1
         simp only [List.length_append, List.length_cons, List.length_nil]
         by_cases hw1 : (w == 1) = true
         · have hw : w = 1 := by simpa using hw1
@@ -356,9 +395,9 @@ theorem execS_ite (fuel : Nat) (c : X.Expr) (t e : X.Stmt) (σ : X.St) (hpc : pu
         have helse := hat.right.right.right.left.get 1 _ rfl
         have hend := hat.right.right.right.right.right.head
         simp only [List.length_cons, List.length_nil, Nat.add_zero] at hbr helse hend
-        obtain ⟨b1, mem1, st1, rep1⟩ := exec_cond_brz K wf.toWF _ w st hC _ cc gs1 i a b mem σ.io _ _ _ h1
+        obtain ⟨b1, mem1, st1, rep1⟩ := exec_cond_brz K wf.toWF _ w st hC _ cc gs1 i a b mem σ.io hs.2.2.2.1 _ _ _ h1
           hat.left hbrz helse hrst (by have := e2.2.1; have := e3.2.1; omega) hnl ((hci.of_eff e3).of_eff e2)
-        have rep1s := rep1.same hs2
+        have rep1s := hs2 _ rep1
         have e1 := genExpr_eff _ _ _ _ _ _ h1
         simp only [List.length_append, List.length_cons, List.length_nil]
         by_cases hw1 : (w == 1) = true
@@ -396,7 +435,7 @@ theorem optStmt_while (ρ : String → Option Word) (c : X.Expr) (b : X.Stmt) :
     optStmt (annotS ρ (.while c b)) = .while (optExpr (annotate ρ c)) (optStmt (annotS ρ b)) := by
   simp [annotS, optStmt]
 
-theorem execS_while (fuel : Nat) (c : X.Expr) (body : X.Stmt) (σ : X.St) (hpc : pureE c = true)
+theorem execS_while (fuel : Nat) (c : X.Expr) (body : X.Stmt) (σ : X.St) (hCK : CondOK K fuel c)
     (ihb : ∀ s, ExecS K exitJ (optStmt (annotS K.ρ body)) s (X.exec fuel K.xc body s))
     (ihw : ∀ s, ExecS K exitJ (optStmt (annotS K.ρ (.while c body))) s (X.exec fuel K.xc (.while c body) s)) :
     ExecS K exitJ (optStmt (annotS K.ρ (.while c body))) σ (X.exec (fuel + 1) K.xc (.while c body) σ) := by
@@ -410,13 +449,13 @@ theorem execS_while (fuel : Nat) (c : X.Expr) (body : X.Stmt) (σ : X.St) (hpc :
     have hs := tick_same _ _ _ ht
     cases hev : asBool "condition of while" (X.eval fuel K.xc c st) with
     | undef w => trivial
-    | exit cd s => exact absurd hev (asBool_pure_no_exit K.xc _ fuel c st cd s hpc)
+    | exit cd s => exact absurd hev (asBool_no_exit _ _ cd s (fun cd' s' => hCK.noexit st mem cd' s' (hr.same hs)))
     | ok w s =>
       simp only
       obtain ⟨hev', hbw⟩ := asBool_ok _ _ _ _ hev
-      have hs2 := eval_pure K.xc _ _ _ _ _ hpc hev'
-      have hio : s.io = σ.io := by rw [hs2.2.2.2.1, hs.2.2.2.1]
-      have hC := expr_pure_correct K wf.toWF fuel c st w s hpc hev'
+      have hs2 := hCK.rep st mem _ s (hr.same hs) hev'
+      have hio : s.io = σ.io := by rw [hCK.io st mem _ s (hr.same hs) hev', hs.2.2.2.1]
+      have hC := hCK.exec st mem w s (hr.same hs) hev'
       have hrst := hr.same hs
       obtain ⟨cc, gs1, cb, h1, h2, hcode⟩ := genStmt_while_inv _ _ _ _ _ _ hg
       have e2 := genStmt_eff _ _ _ _ _ h2
@@ -437,9 +476,9 @@ theorem execS_while (fuel : Nat) (c : X.Expr) (body : X.Stmt) (σ : X.St) (hpc :
       have hlen : (K.low code).length = 1 + ((K.low cc).length + (1 + ((K.low cb).length + 2))) := by
         rw [hcode]; simp only [low_append, List.append_assoc, hlb, hbz, hbe, List.length_append, List.length_cons, List.length_nil]
       have sBegin := step_label K _ _ _ hbegin a b mem σ.io
-      obtain ⟨b1, mem1, st1, rep1⟩ := exec_cond_brz K wf.toWF _ w st hC _ cc gs1 (i + 1) a b mem σ.io _ _ _ h1
+      obtain ⟨b1, mem1, st1, rep1⟩ := exec_cond_brz K wf.toWF _ w st hC _ cc gs1 (i + 1) a b mem σ.io hs.2.2.2.1 _ _ _ h1
         (by simpa using hat.right.left) (by simpa using hbrz) hend hrst (by have := e2.2.1; omega) hnl (hci.of_eff e2)
-      have rep1s := rep1.same hs2
+      have rep1s := hs2 _ rep1
       by_cases hw0 : (w == 0) = true
       · have hw : w = 0 := by simpa using hw0
         simp only [hw0, if_true]
